@@ -478,7 +478,7 @@ class Exec:
         s.add(*pc)
         s.add(extra)
         t = time.time()
-        r = s.check()
+        r = guarded_check(s, ms)
         self.solver_seconds += time.time() - t
         return r == z3.unsat
 
